@@ -44,23 +44,29 @@ theorem threshold_triple (x y z : Int) :
   rw [Bool.eq_iff_iff]
   by_cases h1 : x = 1 <;> by_cases h2 : y = 2 <;> simp [h1, h2] <;> omega
 
+/-- Bool → Prop normal form for the generated comparisons; the remaining goal is linear arithmetic
+over the opaque constants `libX libY libZ`, so an equivalent rewrite of the Python condition
+(operands swapped, `<=` for `>=`, nested differently) does not break the proofs below -/
+macro "bool_omega" : tactic =>
+  `(tactic| (rw [Bool.eq_iff_iff]
+             simp only [Bool.and_eq_true, Bool.or_eq_true, Bool.not_eq_true', Bool.not_eq_eq_eq_not, Bool.not_true,
+               Bool.not_false, Bool.or_eq_false_iff, Bool.and_eq_false_imp, decide_eq_true_eq,
+               decide_eq_false_iff_not, List.cons.injEq, and_true, ne_eq,
+               Bool.true_eq_false, Bool.false_eq_true, iff_true, iff_false, true_iff, false_iff] <;> omega))
+
 theorem canRead_triple (fmt id : Option Str) (x y z : Int) :
     canRead ⟨fmt, some [x, y, z], id⟩ = .ok (decide (x = libX ∧ y ≤ libY)) := by
   simp only [canRead, versionLen, canReadCond, List.length_cons, List.length_nil]
   simp only [show ¬ (0 + 1 + 1 + 1 ≠ 3) by decide, if_false]
   congr 1
-  rw [Bool.eq_iff_iff]
-  simp
-  omega
+  bool_omega
 
 theorem canWrite_triple (fmt id : Option Str) (x y z : Int) :
     canWrite ⟨fmt, some [x, y, z], id⟩ = .ok (decide (x = libX ∧ y = libY ∧ z = libZ)) := by
   simp only [canWrite, versionLen, canWriteCmp, cmpTuple, libVersion, List.length_cons, List.length_nil]
   simp only [show ¬ (0 + 1 + 1 + 1 ≠ 3) by decide, if_false]
   congr 1
-  rw [Bool.eq_iff_iff]
-  simp
-  omega
+  bool_omega
 
 theorem canRead_badlen (fmt id : Option Str) (v : List Int) (h : v.length ≠ 3) :
     canRead ⟨fmt, some v, id⟩ = .error .runtimeError := by
